@@ -1,11 +1,14 @@
 import Infretis.Lemmas.RepexC07Issue
 /-!
-# C07 — streams numbered by (ordinal, entry) are pairwise distinct
+# C07 — streams tagged by (ordinal, entry) are distinct exactly when the ordinals are
 
-Pure list reasoning: if the `k`-th job of a list carries, for its `j`-th picked entry, the streams
-`(en, [base + k, j])` and `(en, [base + k, j, 0])`, then all these streams are pairwise distinct
-(as `Stream` values, i.e. as `(entropy, spawn_key)` pairs) and none has the empty spawn key of the
-scheduler's own stream.
+Pure list reasoning: if every entry of a log carries, for its `j`-th picked ensemble, the streams
+`(en, [ord, j])` and `(en, [ord, j, 0])` of its ordinal `ord`, then
+* entries with different ordinals have no stream in common, entries with the same ordinal (a job and
+  its re-issue) have the same streams entry by entry;
+* if the ordinals of a log are pairwise distinct, all its streams are pairwise distinct
+  (as `Stream` values, i.e. as `(entropy, spawn_key)` pairs);
+* none has the empty spawn key of the scheduler's own stream.
 -/
 namespace Infretis.Repex
 
@@ -18,24 +21,32 @@ def engStreams (jobs : List Job) : List Stream := jobs.flatMap (fun job => job.p
 /-- all streams handed to a list of jobs -/
 def allStreams (jobs : List Job) : List Stream := moveStreams jobs ++ engStreams jobs
 
-theorem mem_flatMap_picked {f : Picked → Stream} {jobs : List Job} {x : Stream}
-    (h : x ∈ jobs.flatMap (fun job => job.picked.map f)) :
-    ∃ (k : Nat) (job : Job) (j : Nat) (p : Picked),
-      jobs[k]? = some job ∧ job.picked[j]? = some p ∧ x = f p := by
+theorem moveStream_inj (en k j k' j' : Nat) (h : moveStream en k j = moveStream en k' j') :
+    k = k' ∧ j = j' := by
+  simpa [moveStream] using h
+
+theorem engStream_inj (en k j k' j' : Nat) (h : engStream en k j = engStream en k' j') :
+    k = k' ∧ j = j' := by
+  simpa [engStream] using h
+
+theorem mem_flatMap_entries {f : Picked → Stream} {log : List Entry} {x : Stream}
+    (h : x ∈ (log.map (·.job)).flatMap (fun job => job.picked.map f)) :
+    ∃ (e : Entry) (j : Nat) (p : Picked), e ∈ log ∧ e.job.picked[j]? = some p ∧ x = f p := by
   rw [List.mem_flatMap] at h
   obtain ⟨job, hjob, hx⟩ := h
-  rw [List.mem_map] at hx
+  rw [List.mem_map] at hjob hx
+  obtain ⟨e, he, rfl⟩ := hjob
   obtain ⟨p, hp, rfl⟩ := hx
-  obtain ⟨k, hk⟩ := List.mem_iff_getElem?.mp hjob
   obtain ⟨j, hj⟩ := List.mem_iff_getElem?.mp hp
-  exact ⟨k, job, j, p, hk, hj, rfl⟩
+  exact ⟨e, j, p, he, hj, rfl⟩
 
-/-- generic: a labelling `g (ordinal) (entry)` that is injective gives pairwise distinct values -/
+/-- generic: a labelling `g ord entry` that is injective gives pairwise distinct values over a log
+    whose ordinals are pairwise distinct -/
 theorem nodup_of_labelled (f : Picked → Stream) (g : Nat → Nat → Stream)
     (ginj : ∀ k j k' j', g k j = g k' j' → k = k' ∧ j = j') :
-    ∀ (jobs : List Job) (base : Nat),
-      (∀ k job, jobs[k]? = some job → ∀ j p, job.picked[j]? = some p → f p = g (base + k) j) →
-      (jobs.flatMap (fun job => job.picked.map f)).Nodup := by
+    ∀ (log : List Entry), (log.map (·.ord)).Nodup →
+      (∀ e ∈ log, ∀ j p, e.job.picked[j]? = some p → f p = g e.ord j) →
+      ((log.map (·.job)).flatMap (fun job => job.picked.map f)).Nodup := by
   have inner : ∀ (ps : List Picked) (b j0 : Nat),
       (∀ j p, ps[j]? = some p → f p = g b (j0 + j)) → (ps.map f).Nodup := by
     intro ps
@@ -60,92 +71,87 @@ theorem nodup_of_labelled (f : Picked → Stream) (g : Nat → Nat → Stream)
         have e : j0 + 1 + j = j0 + (j + 1) := by omega
         rw [e]
         exact this
-  intro jobs
-  induction jobs with
-  | nil => intro base _; simp
-  | cons job rest ih =>
-    intro base h
-    rw [List.flatMap_cons, List.nodup_append]
+  intro log
+  induction log with
+  | nil => intro _ _; simp
+  | cons e rest ih =>
+    intro hn h
+    rw [List.map_cons, List.nodup_cons] at hn
+    rw [List.map_cons, List.flatMap_cons, List.nodup_append]
     refine ⟨?_, ?_, ?_⟩
-    · apply inner job.picked base 0
+    · apply inner e.job.picked e.ord 0
       intro j p hp
-      have := h 0 job (by simp) j p hp
+      have := h e (List.mem_cons_self ..) j p hp
       simpa using this
-    · apply ih (base + 1)
-      intro k job' hk j p hp
-      have := h (k + 1) job' (by simpa using hk) j p hp
-      have e : base + 1 + k = base + (k + 1) := by omega
-      rw [e]
-      exact this
+    · exact ih hn.2 (fun e' he' => h e' (List.mem_cons_of_mem _ he'))
     · intro a ha b hb hab
       rw [List.mem_map] at ha
       obtain ⟨p, hp, rfl⟩ := ha
       obtain ⟨j, hj⟩ := List.mem_iff_getElem?.mp hp
-      obtain ⟨k, job', j', p', hk, hj', rfl⟩ := mem_flatMap_picked hb
-      have h0 := h 0 job (by simp) j p hj
-      have h1 := h (k + 1) job' (by simpa using hk) j' p' hj'
+      obtain ⟨e', j', p', he', hj', rfl⟩ := mem_flatMap_entries hb
+      have h0 := h e (List.mem_cons_self ..) j p hj
+      have h1 := h e' (List.mem_cons_of_mem _ he') j' p' hj'
       rw [hab, h1] at h0
       have := (ginj _ _ _ _ h0).1
-      omega
+      exact hn.1 (List.mem_map.mpr ⟨e', he', this⟩)
 
-theorem moveStream_inj (en k j k' j' : Nat) (h : moveStream en k j = moveStream en k' j') :
-    k = k' ∧ j = j' := by
-  simpa [moveStream] using h
-
-theorem engStream_inj (en k j k' j' : Nat) (h : engStream en k j = engStream en k' j') :
-    k = k' ∧ j = j' := by
-  simpa [engStream] using h
-
-/-- every stream of a numbered job list is `(en, [k, j])` or `(en, [k, j, 0])` with
-    `base ≤ k < base + #jobs` -/
-theorem StreamsFrom.mem_allStreams {en base : Nat} {jobs : List Job} (h : StreamsFrom en base jobs)
-    {x : Stream} (hx : x ∈ allStreams jobs) :
-    ∃ k j, base ≤ k ∧ k < base + jobs.length ∧ (x = moveStream en k j ∨ x = engStream en k j) := by
+/-- every stream of a tagged log is `(en, [ord, j])` or `(en, [ord, j, 0])` for an entry's ordinal -/
+theorem Tagged.mem_allStreams {en : Nat} {log : List Entry} (h : Tagged en log) {x : Stream}
+    (hx : x ∈ allStreams (log.map (·.job))) :
+    ∃ e ∈ log, ∃ j, x = moveStream en e.ord j ∨ x = engStream en e.ord j := by
   unfold allStreams at hx
   rcases List.mem_append.mp hx with hm | hm
-  · obtain ⟨k, job, j, p, hk, hj, rfl⟩ := mem_flatMap_picked hm
-    have hlt : k < jobs.length := by
-      rcases Nat.lt_or_ge k jobs.length with h' | h'
-      · exact h'
-      · rw [List.getElem?_eq_none h'] at hk; exact absurd hk (by simp)
-    exact ⟨base + k, j, by omega, by omega, Or.inl (h k job hk j p hj).1⟩
-  · obtain ⟨k, job, j, p, hk, hj, rfl⟩ := mem_flatMap_picked hm
-    have hlt : k < jobs.length := by
-      rcases Nat.lt_or_ge k jobs.length with h' | h'
-      · exact h'
-      · rw [List.getElem?_eq_none h'] at hk; exact absurd hk (by simp)
-    exact ⟨base + k, j, by omega, by omega, Or.inr (h k job hk j p hj).2⟩
+  · obtain ⟨e, j, p, he, hj, rfl⟩ := mem_flatMap_entries hm
+    exact ⟨e, he, j, Or.inl (h e he j p hj).1⟩
+  · obtain ⟨e, j, p, he, hj, rfl⟩ := mem_flatMap_entries hm
+    exact ⟨e, he, j, Or.inr (h e he j p hj).2⟩
 
-/-- **pairwise distinct**: all move and engine streams of a numbered job list -/
-theorem StreamsFrom.nodup {en base : Nat} {jobs : List Job} (h : StreamsFrom en base jobs) :
-    (allStreams jobs).Nodup := by
+/-- **pairwise distinct**: all move and engine streams of a tagged log with pairwise distinct ordinals -/
+theorem Tagged.nodup {en : Nat} {log : List Entry} (h : Tagged en log)
+    (hn : (log.map (·.ord)).Nodup) : (allStreams (log.map (·.job))).Nodup := by
   unfold allStreams
   rw [List.nodup_append]
   refine ⟨?_, ?_, ?_⟩
-  · exact nodup_of_labelled (·.rgen) (moveStream en) (moveStream_inj en) jobs base
-      (fun k job hk j p hp => (h k job hk j p hp).1)
-  · exact nodup_of_labelled (·.rgenEng) (engStream en) (engStream_inj en) jobs base
-      (fun k job hk j p hp => (h k job hk j p hp).2)
+  · exact nodup_of_labelled (·.rgen) (moveStream en) (moveStream_inj en) log hn
+      (fun e he j p hp => (h e he j p hp).1)
+  · exact nodup_of_labelled (·.rgenEng) (engStream en) (engStream_inj en) log hn
+      (fun e he j p hp => (h e he j p hp).2)
   · intro a ha b hb hab
-    obtain ⟨k, job, j, p, hk, hj, rfl⟩ := mem_flatMap_picked ha
-    obtain ⟨k', job', j', p', hk', hj', rfl⟩ := mem_flatMap_picked hb
-    rw [(h k job hk j p hj).1, (h k' job' hk' j' p' hj').2] at hab
+    obtain ⟨e, j, p, he, hj, rfl⟩ := mem_flatMap_entries ha
+    obtain ⟨e', j', p', he', hj', rfl⟩ := mem_flatMap_entries hb
+    rw [(h e he j p hj).1, (h e' he' j' p' hj').2] at hab
     simp [moveStream, engStream] at hab
 
 /-- none of them has the scheduler's (empty) spawn key -/
-theorem StreamsFrom.key_ne_nil {en base : Nat} {jobs : List Job} (h : StreamsFrom en base jobs)
-    {x : Stream} (hx : x ∈ allStreams jobs) : x.key ≠ [] := by
-  obtain ⟨k, j, _, _, hx | hx⟩ := h.mem_allStreams hx <;> subst hx <;> simp [moveStream, engStream]
+theorem Tagged.key_ne_nil {en : Nat} {log : List Entry} (h : Tagged en log)
+    {x : Stream} (hx : x ∈ allStreams (log.map (·.job))) : x.key ≠ [] := by
+  obtain ⟨e, _, j, hx | hx⟩ := h.mem_allStreams hx <;> subst hx <;> simp [moveStream, engStream]
 
-theorem allStreams_append (l1 l2 : List Job) :
-    (allStreams (l1 ++ l2)).Perm (allStreams l1 ++ allStreams l2) := by
-  unfold allStreams moveStreams engStreams
-  rw [List.flatMap_append, List.flatMap_append]
-  -- (a ++ b) ++ (c ++ d) ~ (a ++ c) ++ (b ++ d)
-  rw [List.append_assoc, List.append_assoc]
-  apply List.Perm.append_left
-  rw [← List.append_assoc, ← List.append_assoc]
-  apply List.Perm.append_right
-  exact List.perm_append_comm
+/-- two entries with different ordinals share no stream -/
+theorem Tagged.disjoint {en : Nat} {log : List Entry} (h : Tagged en log) {e1 e2 : Entry}
+    (h1 : e1 ∈ log) (h2 : e2 ∈ log) (hne : e1.ord ≠ e2.ord) :
+    ∀ x ∈ allStreams [e1.job], x ∉ allStreams [e2.job] := by
+  intro x hx1 hx2
+  have t1 : Tagged en [e1] := by intro e he; simp only [List.mem_singleton] at he; subst he; exact h e h1
+  have t2 : Tagged en [e2] := by intro e he; simp only [List.mem_singleton] at he; subst he; exact h e h2
+  obtain ⟨a, ha, j, hxa⟩ := t1.mem_allStreams (log := [e1]) (by simpa using hx1)
+  obtain ⟨b, hb, j', hxb⟩ := t2.mem_allStreams (log := [e2]) (by simpa using hx2)
+  simp only [List.mem_singleton] at ha hb
+  subst ha hb
+  rcases hxa with hxa | hxa <;> rcases hxb with hxb | hxb <;> rw [hxa] at hxb
+  · exact hne (moveStream_inj en _ _ _ _ hxb).1
+  · simp [moveStream, engStream] at hxb
+  · simp [moveStream, engStream] at hxb
+  · exact hne (engStream_inj en _ _ _ _ hxb).1
+
+/-- two entries with the same ordinal (a job and its re-issue) carry the same streams, entry by entry -/
+theorem Tagged.same {en : Nat} {log : List Entry} (h : Tagged en log) {e1 e2 : Entry}
+    (h1 : e1 ∈ log) (h2 : e2 ∈ log) (heq : e1.ord = e2.ord) (j : Nat) (p q : Picked)
+    (hp : e1.job.picked[j]? = some p) (hq : e2.job.picked[j]? = some q) :
+    p.rgen = q.rgen ∧ p.rgenEng = q.rgenEng := by
+  obtain ⟨a1, a2⟩ := h e1 h1 j p hp
+  obtain ⟨b1, b2⟩ := h e2 h2 j q hq
+  rw [a1, a2, b1, b2, heq]
+  exact ⟨rfl, rfl⟩
 
 end Infretis.Repex
